@@ -94,6 +94,7 @@ def main(tier):
                 lines.append((cid, gl.line_of(cid, c)))
     res = gl.run_cases(binary, lines, chunk=4)
     worst = {"plain_l2": 9, "plain_inf": 9, "ex_l2": 9, "ex_inf": 9}
+    reported_n = [0]
     errs = {}
     groups = {}
     pairs = 0
@@ -109,6 +110,18 @@ def main(tier):
             continue
         e2 = [gl.num(r, "he2") for r in rs]
         ei = [gl.num(r, "heinf") for r in rs]
+        # the error figures the solver REPORTS (exactErrorWeightedEuclidean / exactErrorInfinity) are the norms of exact - returned
+        # solution: the harness recomputes both from the returned vector (clean tree: agreement to 1.4e-15 relative)
+        for r, a2, ai in zip(rs, e2, ei):
+            l2, li = gl.num(r, "e2"), gl.num(r, "einf")
+            if l2 is not None and li is not None and l2 >= 0 and li >= 0:
+                reported_n[0] += 1
+                if abs(l2 - a2) > 1e-10 * max(a2, 1e-300) or abs(li - ai) > 1e-10 * max(ai, 1e-300):
+                    rep.violation("reported-error:%s" % ("extrapolated" if cfg["extr"] else "plain"),
+                                  "%s on %sx%s: the solver reports errors %.17g / %.17g, the norms of (exact - returned solution) recomputed "
+                                  "from the returned vector are %.17g / %.17g" % (name, r["nr"], r["nt"], l2, li, a2, ai),
+                                  {"config": cfg, "chain": list(chain_i), "kind": "reported"})
+                    break
         errs[(name, cfg["dirbc"], cfg["strat"], cfg["cc"], cfg["cg"], cfg["cycle"], cfg["maxlev"], cfg["extr"])] = (e2[-1], ei[-1])
         for d, r, a2, ai in zip(chain_i, rs, e2, ei):
             groups.setdefault((name, cfg["dirbc"], cfg["extr"], d), []).append((a2, ai, cfg, "%sx%s" % (r["nr"], r["nt"])))
@@ -169,6 +182,7 @@ def main(tier):
         "refinement_pairs_judged": pairs,
         "extrapolated_vs_plain_comparisons": cmp_n,
         "variant_groups_compared": grp_n,
+        "reported_error_figures_recomputed": reported_n[0],
         "lowest_orders_healthy_triples": worst,
         "thresholds": {"plain": ORDER_PLAIN, "plain_first_pair_17x32": ORDER_PLAIN_COARSE, "extrapolated_l2": ORDER_EX_L2, "extrapolated_max": ORDER_EX_INF},
         "rule": "63 shipped smooth triples (3 geometries x 3 problems x 7 coefficient classes) x interior boundary x {give, take"
@@ -189,6 +203,29 @@ def replay(path):
         return 2
     binary = _build()
     cfg, chain = rp["config"], rp.get("chain", [1, 2])
+    if rp.get("kind") == "reported":
+        outs = []
+        for _ in range(2):
+            lines = []
+            for d in chain:
+                c = dict(cfg)
+                c["div2"] = d
+                lines.append(("r%d" % d, gl.line_of("r%d" % d, c)))
+            res = gl.run_cases(binary, lines, chunk=1)
+            outs.append([tuple(res["r%d" % d].get(k) for k in ("e2", "einf", "he2", "heinf")) for d in chain])
+        if outs[0] != outs[1]:
+            print("replay is not deterministic; refusing to report")
+            return 2
+        bad = False
+        for e2, einf, he2, heinf in outs[0]:
+            l2, li, a2, ai = float.fromhex(e2), float.fromhex(einf), float(he2), float(heinf)
+            print("reported %.17g %.17g recomputed %.17g %.17g" % (l2, li, a2, ai))
+            bad |= abs(l2 - a2) > 1e-10 * max(a2, 1e-300) or abs(li - ai) > 1e-10 * max(ai, 1e-300)
+        if bad:
+            print("VIOLATION property=%s replay=%s" % (PID, path))
+            return 1
+        print("replay: property held")
+        return 0
     if rp.get("kind") == "variant":
         outs = []
         for _ in range(2):
